@@ -16,6 +16,7 @@ pub fn stream_cfg(rng: &mut Rng) -> Cfg {
     cfg.small_ids = rng.chance(1, 3);
     cfg.multi_opt_records = rng.chance(1, 6);
     cfg.signed_wide = rng.chance(1, 8);
+    cfg.cross_kind = rng.chance(1, 2);
     if rng.chance(1, 10) {
         cfg.max_records = 60;
     }
